@@ -823,3 +823,27 @@ Definition only_clean_starts (f : sched) : bool :=
 Definition leaders_of (w : world) : list node := List.filter iam_leader (nodes_of w).
 Definition same_members_everywhere (w : world) : bool :=
   forallb (fun n => forallb (fun m => subset_b (member_ids (nd_view n)) (member_ids (nd_view m))) (nodes_of w)) (nodes_of w).
+
+(** (e2) timeout 300: j joins the seed s, crashes, and the process restarts at the same address under the fresh NodeID
+    "k" (the default configuration draws a new uuid per process).  s then lists two members with that address; in this
+    execution MemberByAddress always yields the predecessor's entry (on the real code the Go map iteration decides, at
+    random, at every delivery - the pick is the [choice] input of SDeliver, here the smaller id). *)
+Definition wg_seed : cfg := Cfg [115] ad1 [ad1] 300 0.
+Definition wg_j : cfg := Cfg [106] ad2 [ad1] 300 0.
+Definition wg_k : cfg := Cfg [107] ad2 [ad1] 300 0.
+Definition wg_play : list phase :=
+  [PSteps [(1000%Z, SStart wg_seed []); (1010%Z, SStart wg_j [(ad1, true)])]; PRounds 1 1050 50;
+   PSteps [(1100%Z, SCrash ad2); (1110%Z, SStart wg_k [(ad1, true)])]; PRounds 40 1150 50].
+
+(** (c2) failure detection off: j joins the seed s, crashes, restarts under the same NodeID and joins s again (s knew
+    (2,2), so the new process is at (3,3)); the broadcast of s reaches j, the ONE GossipMessage that carries (3,3) to s
+    is lost.  The version-vector entry of the restarted j starts at 1 again - the value it already had - so the
+    vectors are Equal and j never sends again. *)
+Definition wh_s : cfg := Cfg [115] ad1 [ad1] 0 0.
+Definition wh_j : cfg := Cfg [106] ad2 [ad1] 0 0.
+Definition wh_play : list phase :=
+  [PSteps [(1000%Z, SStart wh_s []); (1010%Z, SStart wh_j [(ad1, true)])]; PRounds 2 1050 50;
+   PSteps [(1200%Z, SCrash ad2); (1210%Z, SStart wh_j [(ad1, true)]);
+           (1220%Z, SDeliver 0 (Some [115]));          (* s -> j: the view s sent when it accepted the join *)
+           (1220%Z, SDrop 0)];                          (* j -> s, carrying j at (3,3): lost *)
+   PRounds 30 1250 50].
